@@ -28,7 +28,7 @@ RULE = (
     '(" \\ \' \\n \\t \\r \\v \\b \\f \\a), structure characters, controls, BOM and astral code points; attribute names use mixed '
     'case, reserved-looking words (id, value, subkeys, element, int) and characters needing escapes. Each graph is exported '
     'with Element.export_binary versions 1-5 and Element.export_kv2 nested/flat x cull_uuid under one unicode mode '
-    '(every 6th graph and all fixed graphs: under all three of ascii/format/silent), parsed back with Element.parse and '
+    '(one graph in six and all fixed graphs: under all three of ascii/format/silent), parsed back with Element.parse and '
     'compared to a snapshot taken before export by a harness walker that numbers elements by object identity in '
     'attribute order (so sharing, cycles, NULL/stub identity, attribute order, original-case names, ValueType, '
     'scalar/array shape and UUIDs are all compared; UUIDs of non-stub elements are ignored only under cull_uuid, where '
@@ -855,8 +855,9 @@ def main(run, shard=(0, 1)) -> None:
         if not mine(i, shard):
             continue
         rng = sub_rng(run.seed, 'graph', i)
-        spec = gen_dmx.gen_graph(rng, big=thorough and i % 5 == 0)
-        check_graph(run, rng, spec, 'graph', {'engine': 'graph', 'index': i}, all_modes=(i % 6 == 0), sample=i < 2)
+        # drawn, not i % k: with i % k the expensive cases would all land on the same shards
+        spec = gen_dmx.gen_graph(rng, big=rng.random() < 0.2 and thorough)
+        check_graph(run, rng, spec, 'graph', {'engine': 'graph', 'index': i}, all_modes=rng.random() < 1 / 6, sample=i < 2)
     for j, (label, spec) in enumerate(fixed_graphs()):
         if mine(j, shard):
             check_graph(run, sub_rng(run.seed, 'fixed', j), spec, 'fixed', {'engine': 'fixed', 'index': j, 'label': label},
@@ -889,7 +890,8 @@ def replay(run, data) -> None:
     engine, idx = case['engine'], case['index']
     if engine == 'graph':
         rng = sub_rng(run.seed, 'graph', idx)
-        spec = gen_dmx.gen_graph(rng, big=run.tier == 'thorough' and idx % 5 == 0)
+        spec = gen_dmx.gen_graph(rng, big=rng.random() < 0.2 and run.tier == 'thorough')
+        rng.random()  # the all_modes draw of main(); replay always runs every mode
         check_graph(run, rng, spec, 'graph', {'engine': 'graph', 'index': idx}, all_modes=True, sample=True)
     elif engine == 'fixed':
         label, spec = fixed_graphs()[idx]
